@@ -16,6 +16,7 @@ MC_BaseCalls == <<
 MC_AllNames == {<<"b">>, <<"c">>} \cup {<<"u", i>> : i \in 0..2} \cup {<<"w", i>> : i \in 0..2}
                \cup {<<"K", i, j>> : i \in 0..1, j \in 0..2} \cup {<<"S", 0, 0>>, <<"S", 0, 1>>, <<"S", 1, 1>>}
 MC_En == {"Index", "Slice", "MGet", "Transpose", "Diagonal"}
+MC_ObjCands == {}
 MC_Stages == <<>>
 MC_FinalEn == {}
 MC_ScalarLits == {}
